@@ -315,7 +315,7 @@ class Decision(Stream):
     def __init__(self, ctx):
         super().__init__(ctx)
         self.fp = import_freephil()
-        self.open_ids = {f["id"] for f in vlib.load_findings(PID) if f.get("status") == "open"}
+        self.open_kinds = {finding_kind(f) for f in vlib.load_findings(PID) if f.get("status") == "open"}
         self._m = {}
 
     # ---- masters
@@ -340,9 +340,9 @@ class Decision(Stream):
         tie = [s("x", [d("a", 1)]), s("y", [d("a", 2)]), s("z", [d("ab")])]
         out = [
             # known defect witnesses (in the property's domain only while listed open in known_findings.json)
-            {"m": [d("m", None, True), d("m", None, True)], "home": None, "arg": "m=3", "witness": "F13"},
-            {"m": [d("a", None, False, True)], "home": None, "arg": "a=2", "witness": "F17"},
-            {"m": [s("x", [d("b", 200)]), s("y", [d("b", 200)]), s("z", [d("ab")])], "home": None, "arg": "b=5", "witness": "F18"},
+            {"m": [d("m", None, True), d("m", None, True)], "home": None, "arg": "m=3", "witness": "dup-path"},
+            {"m": [d("a", None, False, True)], "home": None, "arg": "a=2", "witness": "empty-master"},
+            {"m": [s("x", [d("b", 200)]), s("y", [d("b", 200)]), s("z", [d("ab")])], "home": None, "arg": "b=5", "witness": "outsider"},
             # regression cases
             {"m": fix, "home": "s", "arg": "a=3"},
             {"m": fix, "home": "s", "arg": "b.a = 3 4 'x y'"},
@@ -370,7 +370,7 @@ class Decision(Stream):
                 continue
             scopes = sorted({".".join(t.split(".")[:k]) for t in targets for k in range(1, len(t.split(".")))})
             homes = [None] + rng.sample(scopes, min(2, len(scopes))) + ([rng.choice(["b", "a.b", "c"])] if i % 3 == 0 else [])
-            names = arg_names(rng, targets, scopes)
+            names = arg_names(rng, targets, scopes) or ["a", "b.a"]
             for _ in range(per):
                 h = rng.choice(homes)
                 n = rng.choice(names) if rng.random() < 0.88 else rng.choice(NON_MATCHING)
@@ -505,16 +505,16 @@ class Decision(Stream):
 
     def in_domain(self, case):
         if case.get("witness"):
-            return case["witness"] in self.open_ids
+            return case["witness"] in self.open_kinds
         m, targets, levels, _ = self.master(case["m"])
         if m is None:
             return True
         if not targets:
-            return False  # F17 (proposed): ValueError instead of a refusal on a master without parameters
+            return False  # finding 'empty-master' (proposed F19): ValueError instead of a refusal on a master without parameters
         if len(set(targets)) != len(targets):
             return False  # F13: duplicate paths in target_paths
         if max(levels) - min(levels) >= 100:
-            return False  # F18 (proposed): tie-break lets a worse match win when levels differ by >= 100
+            return False  # finding 'outsider' (proposed F20): tie-break lets a worse match win when levels differ by >= 100
         return True
 
     def key(self, case, o):
@@ -570,7 +570,7 @@ ARGS_MASTER = "a = 0\nab = 0\nb {\n  a = 0\n  .type = str\n}\n"
 
 
 class ProcessArgs(Stream):
-    """process_args with process_arg replaced by a recording stub (text in `fails` raises Sorry):
+    """process_args with process_arg replaced by a recording stub (a text containing one of `fails` raises Sorry):
     which text each argument hands to process_arg, in order; blank arguments skipped; what is left over.
     Property oracle (real process_arg, real fetch): process_and_fetch(args) prints the same as fetching the
     individually interpreted arguments in order."""
@@ -591,7 +591,7 @@ class ProcessArgs(Stream):
 
             def process_arg(self, arg):
                 self.calls.append(arg)
-                if arg in self.fails:
+                if any(m in arg for m in self.fails):
                     raise fp.Sorry("stub")
                 return ("phil", arg)
 
@@ -601,9 +601,9 @@ class ProcessArgs(Stream):
 
     def corpus(self):
         return [{"args": ["--a", " ", "a=1", "--b.a=x"], "fails": [], "collect": False},
-                {"args": ["a=1", "zz=1", "a"], "fails": ["zz=1"], "collect": True},
-                {"args": ["a=1", "zz=1", "--a"], "fails": ["zz=1"], "collect": False},
-                {"args": ["--zz", "a=1"], "fails": ["zz = True"], "collect": True}]
+                {"args": ["a=1", "zz=1", "a"], "fails": ["zz"], "collect": True},
+                {"args": ["a=1", "zz=1", "--a"], "fails": ["zz"], "collect": False},
+                {"args": ["--zz", "a=1"], "fails": ["zz"], "collect": True}]
 
     def cases(self, rng, tier):
         n = 1500 if tier == "quick" else 30000
@@ -612,7 +612,7 @@ class ProcessArgs(Stream):
             args = [rng.choice(ARGS) for _ in range(k)]
             if any(os.path.exists(a) for a in args):
                 continue
-            fails = ["zz=1", "zz = True"] if rng.random() < 0.7 else rng.sample(["a=1", "a = True", "zz=1", "ab='x y'"], 2)
+            fails = ["zz"] if rng.random() < 0.7 else rng.sample(["a=1", "b.a", "zz", "ab"], 2)
             yield {"args": args, "fails": fails, "collect": rng.random() < 0.5}
 
     def canon_text(self, text):
@@ -622,7 +622,7 @@ class ProcessArgs(Stream):
                 src = self.fp.parse(text)
                 self._canon[text] = [[l.path, [[w.value, qcode(w.quote_token)] for w in l.object.words]] for l in src.all_definitions()]
             except Exception:  # noqa
-                self._canon[text] = ["raw", text]
+                self._canon[text] = ["unparseable"]
         return self._canon[text]
 
     def run_stub(self, args, fails, collect):
@@ -724,20 +724,28 @@ class ProcessArgs(Stream):
 
 
 # ----------------------------------------------------------------------------- known findings
+# known_findings.json entries are recognised by their "signature" field, else by id
+FINDING_KINDS = {"F13": "dup-path", "F19": "empty-master", "F20": "outsider"}
+
+
+def finding_kind(finding):
+    return finding.get("signature") or FINDING_KINDS.get(finding.get("id"))
+
+
 def match_finding(finding, failure):
     """Recognise the signature of a recorded defect in a property failure of the decision stream."""
     case, obs, what = failure.get("case"), failure.get("impl"), failure.get("what", "")
     if not isinstance(case, dict) or "m" not in case or not isinstance(obs, list) or len(obs) != 5:
         return False
     end, targets = obs[2], obs[4]
-    fid = finding.get("id")
-    if fid == "F13":
+    kind = finding_kind(finding)
+    if kind == "dup-path":
         # the same path listed twice among the targets; a full-path argument refused as ambiguous between equals
         return (what.startswith("[dup-path]") and end[0] == "ambiguous" and len(end[1]) > 1 and len(set(end[1])) == 1
                 and targets.count(end[1][0]) > 1)
-    if fid == "F17":
+    if kind == "empty-master":
         return what.startswith("[empty-master]") and targets == [] and end == ["crash", "other:ValueError"]
-    if fid == "F18":
+    if kind == "outsider":
         return what.startswith("[outsider]") and end[0] == "ok" and len(obs[1]) > 0
     return False
 
